@@ -82,7 +82,11 @@ func ipv6(t *verifsim.Tape) string {
 	for i := range g {
 		g[i] = fmt.Sprintf("%x", t.Draw("hextet", 65536))
 	}
-	switch t.Draw("v6form", 4) {
+	switch t.Draw("v6form", 6) {
+	case 4: // RFC 4291 2.2(3): the last 32 bits in dotted-quad form (IPv4-mapped / -compatible / NAT64)
+		return []string{"::ffff:", "::", "64:ff9b::", "0:0:0:0:0:ffff:"}[t.Draw("v6v4", 4)] + ipv4(t)
+	case 5:
+		return strings.ToUpper(strings.Join(g, ":"))
 	case 0:
 		return strings.Join(g, ":")
 	case 1: // compress a middle run of groups
